@@ -386,8 +386,19 @@ pub fn run_batch<P: Prop>(p: &P, tier: Tier, seed: u64, nruns: u64) -> BatchResu
                     }
                     for idx in start..(start + 16).min(nruns) {
                         let mut rng = Rng::new(run_seed(seed, p.id(), idx));
-                        let case = p.gen(&mut rng, tier, idx);
-                        let out = exec_guarded(p, &case);
+                        // a panic while generating a case is a harness defect:
+                        // report it as such instead of tearing the batch down
+                        let out = match guarded(|| p.gen(&mut rng, tier, idx)) {
+                            Ok(case) => exec_guarded(p, &case),
+                            Err(msg) => {
+                                let mut out = RunOut::default();
+                                out.fail = Some(Fail {
+                                    clause: "harness.gen_panic",
+                                    detail: msg,
+                                });
+                                out
+                            }
+                        };
                         agg.add(idx, out);
                     }
                 }
